@@ -760,7 +760,7 @@ pub fn c11(cx: &Ctx) -> Vec<Finding> {
 
 fn c11_for(cx: &Ctx, si: usize) -> Vec<Finding> {
     let mut out = vec![];
-    let Topo::Flatten { outer, inners } = &cx.sc.topo else { return out };
+    let Topo::Flatten { outer, inners, .. } = &cx.sc.topo else { return out };
     let inner_pups: Vec<u8> = inners
         .iter()
         .filter_map(|t| if let Topo::Puppet(p) = t { Some(*p) } else { None })
